@@ -34,11 +34,14 @@ I16At(bs, p) == I16Of(bs[p], bs[p+1])
 CONSTANT AllocThreshold
 
 ---------------------------------------------------------------------------
-(* discard(n): discardSeek only moves the offset; discardStream is CopyN.  *)
+(* discard(n): discardStream is CopyN.  discardSeek used to move the offset   *)
+(* only (a seek past the end succeeds); since fix eae9dbc it seeks to the last  *)
+(* byte being discarded and reads it, so both report input that ends early      *)
+(* (two source calls instead of one; nothing at all for n = 0).                 *)
 Discard(bs, p, w, n, seek, st) ==
-  IF seek THEN Ok(Adv(bs, p, w, n), Nil, st + 1, 0)
-  ELSE IF n <= Len(bs) /\ Have(bs, p, w * n) THEN Ok(p + w * n, Nil, st + 1, 0)
-       ELSE Err(Beyond(bs) - 1, "eof", st + 1, 0)
+  IF seek /\ (w = 0 \/ n = 0) THEN Ok(p, Nil, st, 0)
+  ELSE IF n <= Len(bs) /\ Have(bs, p, w * n) THEN Ok(p + w * n, Nil, st + (IF seek THEN 2 ELSE 1), 0)
+       ELSE Err(Beyond(bs) - 1, "eof", st + (IF seek THEN 2 ELSE 1), 0)
 
 ---------------------------------------------------------------------------
 (* StreamReader.Skip and helpers.                                           *)
